@@ -13,6 +13,8 @@ import Hv.Vdi
 import Hv.Vhd
 import Hv.Hds
 import Hv.Vhdx
+import Hv.Vmdk
+import Hv.Qcow2
 namespace Hv.Footprint
 open Hv
 
@@ -131,6 +133,203 @@ def vhdx (v : Vhdx.Vhdx) (off len : Nat) : Ranges :=
   let len := min len (v.size - off)
   let count := (len + v.sectorSize - 1) / v.sectorSize
   (unitsTouched v.spb (off / v.sectorSize) count).flatMap (vhdxUnit v (off / v.sectorSize) count)
+
+/-! ### VMDK sparse extents (hosted KDMV, COWD, SE-sparse; uncompressed) — the grain directory is loaded at open; a
+    read looks at one grain-table entry per grain touched (the real code transfers the whole table that holds it, once,
+    through an LRU cache: `vmdkIO`) and at the requested sectors of the allocated grains -/
+
+/-- base offset of the grain table that holds grain `g`'s entry (`none`: no table, or the table does not fit into the
+    file — the lookup then fails or answers "not allocated" without looking at any byte) -/
+def vmdkTable (v : Vmdk.Sparse) (g : Nat) : Option Nat :=
+  if v.gtSize = 0 then none
+  else
+    match v.gd[g / v.gtSize]? with
+    | none => none
+    | some e =>
+      match v.tableOffset e with
+      | none => none
+      | some off => if off + v.gtSize * v.entryWidth > v.fh.size then none else some off
+
+/-- requested sectors of grain `g` when its entry names a grain -/
+def vmdkData (v : Vmdk.Sparse) (sector count g : Nat) : Ranges :=
+  match v.lookupGrain g with
+  | .ok gs =>
+    if gs = 0 ∨ gs = 1 then []
+    else
+      let p := partIn v.grainSize sector count g
+      [((gs + p.1) * Vmdk.S, p.2 * Vmdk.S)]
+  | .error _ => []
+
+def vmdkUnit (v : Vmdk.Sparse) (sector count g : Nat) : Ranges :=
+  match vmdkTable v g with
+  | none => []
+  | some off => (off + (g % v.gtSize) * v.entryWidth, v.entryWidth) :: vmdkData v sector count g
+
+/-- footprint of `SparseDisk.read_sectors(sector, count)` (absolute sector numbers, as the extent walk passes them) -/
+def vmdk (v : Vmdk.Sparse) (sector count : Nat) : Ranges :=
+  (unitsTouched v.grainSize (sector - v.sectorOffset) count).flatMap (vmdkUnit v (sector - v.sectorOffset) count)
+
+/-- the same with every table entry widened to the grain table that holds it: what the real code transfers
+    (`_lookup_grain_table` reads a whole table); used by the harness to compare with the recorded accesses -/
+def vmdkUnitIO (v : Vmdk.Sparse) (sector count g : Nat) : Ranges :=
+  match vmdkTable v g with
+  | none => []
+  | some off => (off, v.gtSize * v.entryWidth) :: vmdkData v sector count g
+
+def vmdkIO (v : Vmdk.Sparse) (sector count : Nat) : Ranges :=
+  (unitsTouched v.grainSize (sector - v.sectorOffset) count).flatMap (vmdkUnitIO v (sector - v.sectorOffset) count)
+
+/-! ### QCOW2 — the L1 table is loaded at open (cached); a read looks at the L2 entries (8 bytes, extended L2: 16) of the
+    guest clusters the request touches — run coalescing (`count_contiguous_subclusters`) included: it looks ahead only
+    over the clusters that the rest of the request touches inside the current L2 table — at the requested part of the
+    host clusters of normal clusters (in the data file), and at the compressed data of compressed clusters. The real
+    code transfers the whole L2 table (one cluster) that holds an entry, through an LRU cache: `qcow2MetaIO`. -/
+section qcow2
+open Hv.Extracted.qcow2
+
+/-- offset of the L2 table for guest cluster `c`, from the (cached) L1 table -/
+def qcow2L2 (q : Qcow2.QCow2) (c : Nat) : Option Nat :=
+  match q.l1 with
+  | .ok l1 =>
+    match l1[c / q.l2Size]? with
+    | some l1e => if l1e &&& L1E_OFFSET_MASK = 0 then none else some (l1e &&& L1E_OFFSET_MASK)
+    | none => none
+  | .error _ => none
+
+/-- the 8-byte words `l2_table[idx]` of the table at `l2Offset` consists of (nothing when the table does not fit into
+    the file or the index is outside: the access fails without looking at any byte) -/
+def qcow2Words (q : Qcow2.QCow2) (l2Offset idx : Nat) : Ranges :=
+  if l2Offset + 8 * (q.l2Size * (q.l2EntrySize / 8)) > q.fh.size then []
+  else if idx * q.l2EntrySize / 8 ≥ q.l2Size * (q.l2EntrySize / 8) then []
+  else
+    (l2Offset + 8 * (idx * q.l2EntrySize / 8), 8) ::
+      (if q.sub then
+        (if idx * q.l2EntrySize / 8 + 1 ≥ q.l2Size * (q.l2EntrySize / 8) then []
+         else [(l2Offset + 8 * (idx * q.l2EntrySize / 8 + 1), 8)])
+       else [])
+
+/-- the compressed data a compressed-cluster descriptor names (`_read_compressed`) -/
+def qcow2Comp (q : Qcow2.QCow2) (desc : Nat) : Nat × Nat :=
+  (desc &&& q.clusterOffsetMask,
+   (((desc >>> q.csizeShift) &&& q.csizeMask) + 1) * QCOW2_COMPRESSED_SECTOR_SIZE - ((desc &&& q.clusterOffsetMask) &&& 511))
+
+/-- image-file ranges for guest cluster `c`: its L2 entry and, for a compressed cluster, the compressed data -/
+def qcow2MetaUnit (q : Qcow2.QCow2) (c : Nat) : Ranges :=
+  match qcow2L2 q c with
+  | none => []
+  | some l2o =>
+    qcow2Words q l2o (c % q.l2Size) ++
+      (match q.l2Entry l2o (c % q.l2Size) with
+       | .ok (e, _) => if q.clusterType e = .compressed then [qcow2Comp q (e &&& L2E_COMPRESSED_OFFSET_SIZE_MASK)] else []
+       | .error _ => [])
+
+/-- data-file ranges for guest cluster `c`: the requested part of its host cluster when the entry is a normal one -/
+def qcow2DataUnit (q : Qcow2.QCow2) (offset length c : Nat) : Ranges :=
+  match qcow2L2 q c with
+  | none => []
+  | some l2o =>
+    match q.l2Entry l2o (c % q.l2Size) with
+    | .ok (e, _) =>
+      if q.clusterType e = .normal then
+        let p := partIn q.cs offset length c
+        [((e &&& L2E_OFFSET_MASK) + p.1, p.2)]
+      else []
+    | .error _ => []
+
+/-- footprint of `_read(offset, length)` in the image file -/
+def qcow2Meta (q : Qcow2.QCow2) (offset length : Nat) : Ranges :=
+  (unitsTouched q.cs offset length).flatMap (qcow2MetaUnit q)
+
+/-- footprint of `_read(offset, length)` in the data file (the image file itself unless an external one is used) -/
+def qcow2Data (q : Qcow2.QCow2) (offset length : Nat) : Ranges :=
+  (unitsTouched q.cs offset length).flatMap (qcow2DataUnit q offset length)
+
+/-- `qcow2Meta` with every L2 entry widened to the L2 table that holds it: what the real code transfers -/
+def qcow2MetaUnitIO (q : Qcow2.QCow2) (c : Nat) : Ranges :=
+  match qcow2L2 q c with
+  | none => []
+  | some l2o =>
+    (if l2o + 8 * (q.l2Size * (q.l2EntrySize / 8)) > q.fh.size then [] else [(l2o, 8 * (q.l2Size * (q.l2EntrySize / 8)))]) ++
+      (match q.l2Entry l2o (c % q.l2Size) with
+       | .ok (e, _) => if q.clusterType e = .compressed then [qcow2Comp q (e &&& L2E_COMPRESSED_OFFSET_SIZE_MASK)] else []
+       | .error _ => [])
+
+def qcow2MetaIO (q : Qcow2.QCow2) (offset length : Nat) : Ranges :=
+  (unitsTouched q.cs offset length).flatMap (qcow2MetaUnitIO q)
+
+end qcow2
+
+/-! ### what `VHDX.__init__` looks at: file identifier, both headers, both region tables, the metadata table of the
+    metadata region and the items it names (the parent locator with its keys and values included) -/
+section vhdxOpen
+open Hv.Extracted.vhdx
+
+/-- a region table: its header and the entry array it announces (when that fits into the file) -/
+def vhdxRegion (fh : File) (off : Nat) : Ranges :=
+  (off, region_table_header.size) ::
+    match fh.field off region_table_header.size region_table_header.entry_count with
+    | .ok n =>
+      if off + region_table_header.size + n * region_table_entry.size > fh.size then []
+      else [(off + region_table_header.size, n * region_table_entry.size)]
+    | .error _ => []
+
+/-- one parent locator entry and the key / value strings it names -/
+def vhdxLocatorEntry (fh : File) (off i : Nat) : Ranges :=
+  let base := off + parent_locator_header.size + i * parent_locator_entry.size
+  let es := parent_locator_entry.size
+  (base, es) ::
+    match fh.field base es parent_locator_entry.key_offset, fh.field base es parent_locator_entry.value_offset,
+          fh.field base es parent_locator_entry.key_length, fh.field base es parent_locator_entry.value_length with
+    | .ok ko, .ok vo, .ok kl, .ok vl => [(off + ko, kl), (off + vo, vl)]
+    | _, _, _, _ => []
+
+def vhdxLocator (fh : File) (off : Nat) : Ranges :=
+  (off, parent_locator_header.size) ::
+    match fh.field off parent_locator_header.size parent_locator_header.key_value_count with
+    | .ok n => (List.range n).flatMap (vhdxLocatorEntry fh off)
+    | .error _ => []
+
+/-- one metadata item, by GUID -/
+def vhdxItem (fh : File) (g : Bytes) (off : Nat) : Ranges :=
+  if g = FILE_PARAMETERS_GUID then [(off, file_parameters.size)]
+  else if g = VIRTUAL_DISK_SIZE_GUID then [(off, virtual_disk_size_width)]
+  else if g = VIRTUAL_DISK_ID_GUID then [(off, virtual_disk_id.size)]
+  else if g = LOGICAL_SECTOR_SIZE_GUID then [(off, logical_sector_size_width)]
+  else if g = PHYSICAL_SECTOR_SIZE_GUID then [(off, physical_sector_size_width)]
+  else if g = PARENT_LOCATOR_GUID then vhdxLocator fh off
+  else []
+
+/-- the metadata table's entries (item id, offset, is_required) -/
+def vhdxMetaRaw (fh : File) (off n : Nat) : Except Err (List (Bytes × Nat × Nat)) :=
+  (List.range n).mapM fun i => do
+    let base := off + metadata_table_header.size + i * metadata_table_entry.size
+    let g ← fh.chars base metadata_table_entry.size metadata_table_entry.item_id.1 metadata_table_entry.item_id.2
+    let o ← fh.field base metadata_table_entry.size metadata_table_entry.offset
+    let r ← fh.field base metadata_table_entry.size metadata_table_entry.is_required
+    pure (g, o, r)
+
+def vhdxMeta (fh : File) (off : Nat) : Ranges :=
+  (off, metadata_table_header.size) ::
+    match fh.field off metadata_table_header.size metadata_table_header.entry_count with
+    | .ok n =>
+      (off + metadata_table_header.size, n * metadata_table_entry.size) ::
+        (match vhdxMetaRaw fh off n with
+         | .ok raw =>
+           raw.flatMap fun e => if ¬ (METADATA_MAP_KEYS.contains e.1) ∧ e.2.2 = 0 then [] else vhdxItem fh e.1 (off + e.2.1)
+         | .error _ => [])
+    | .error _ => []
+
+def vhdxOpen (fh : File) : Ranges :=
+  (0, file_identifier.size) :: (1 * ALIGNMENT, header.size) :: (2 * ALIGNMENT, header.size) ::
+    (vhdxRegion fh (3 * ALIGNMENT) ++ vhdxRegion fh (4 * ALIGNMENT) ++
+      (match Vhdx.regionTable fh (3 * ALIGNMENT) with
+       | .ok rt1 =>
+         (match Vhdx.regionGet rt1 METADATA_REGION_GUID with
+          | .ok me => vhdxMeta fh me.fileOffset
+          | .error _ => [])
+       | .error _ => []))
+
+end vhdxOpen
 
 /-- what `HDS.__init__` + the cached `bat` look at: the header and the BAT right behind it -/
 def hdsOpen (fh : File) : Ranges :=
